@@ -61,6 +61,157 @@ macro_rules! to_float_shape {
         }
     };
 }
+
+// to_f64 for any length against an explicit IEEE-754 construction (round-to-nearest-even on the exact value,
+// overflow to +inf) that does not go through CBMC's int->float cast
+macro_rules! to_f64_bits_shape {
+    ($name:ident, $l:expr) => {
+        #[kani::proof]
+        #[kani::unwind(20)]
+        #[kani::stub(f64::powi, powi_f64_exact)]
+        fn $name() {
+            let a0: [u64; $l] = vc::any_canon::<$l>();
+            let a = vc::mk_from(&a0);
+            let nbits: u64 = 64 * ($l as u64) - a0[$l - 1].leading_zeros() as u64;
+            // exact top 64 bits + sticky, independent of high_bits_to_u64
+            let sh = nbits - 64;
+            let (w, sticky) = vc::ref_shr::<2>(&a0, (sh / 64) as usize, (sh % 64) as u32);
+            let m = w[0];
+            let mut mant = m >> 11; // 53 bits, top bit set
+            let rem = m & 0x7ff;
+            let above = rem > 0x400 || (rem == 0x400 && sticky);
+            let tie = rem == 0x400 && !sticky;
+            if above || (tie && (mant & 1) == 1) {
+                mant += 1;
+            }
+            let mut e = nbits - 1; // unbiased exponent of the leading bit
+            if mant == (1u64 << 53) {
+                mant >>= 1;
+                e += 1;
+            }
+            let expect = if e > 1023 { f64::INFINITY } else { f64::from_bits(((e + 1023) << 52) | (mant & ((1u64 << 52) - 1))) };
+            match a.to_f64() {
+                Some(f) => kani::assert(f.to_bits() == expect.to_bits(), "VERIF to_f64 is not the nearest float (ties-to-even) / wrong overflow"),
+                None => kani::assert(false, "VERIF to_f64 returned None"),
+            }
+            kani::cover!(tie, "reach:exact_tie");
+            kani::cover!($l < 3 || (rem == 0x400 && sticky && a0[$l - 2] == 0), "reach:deciding_bit_far_down");
+            kani::cover!($l != 16 || e > 1023, "reach:rounds_up_to_infinity");
+        }
+    };
+}
+to_f64_bits_shape!(c08_q_to_f64_bits_2, 2);
+to_f64_bits_shape!(c08_q_to_f64_bits_3, 3);
+to_f64_bits_shape!(c08_t_to_f64_bits_5, 5);
+to_f64_bits_shape!(c08_q_to_f64_bits_16, 16);
+to_f64_bits_shape!(c08_t_to_f64_bits_17, 17);
+
+// from_f64 on a symbolic bit pattern of one exponent class (word shift DG concrete, see c07 fixed_word_shift)
+macro_rules! from_f64_shape {
+    ($name:ident, $dg:expr, $w:expr, $fixed:ident) => {
+        #[kani::proof]
+        #[kani::unwind(24)]
+        #[kani::stub(alloc::vec::Vec::shrink_to_fit, vc::noop_shrink)]
+        #[kani::stub(crate::biguint::shift::biguint_shl, crate::biguint::shift::verif_c07_biguint_shift::$fixed)]
+        fn $name() {
+            let bits: u64 = kani::any();
+            let field = (bits >> 52) & 0x7ff;
+            kani::assume(field >= 1075 + 64 * $dg && field <= 1075 + 64 * $dg + 63 && field != 0x7ff);
+            let n = f64::from_bits(bits);
+            let neg = (bits >> 63) == 1;
+            let mant = (bits & ((1u64 << 52) - 1)) | (1u64 << 52);
+            let e = field - 1075;
+            let (expect, lost) = vc::ref_shl::<$w>(&[mant], $dg, (e % 64) as u32);
+            kani::assert(!lost, "VERIF window too small");
+            match BigUint::from_f64(n) {
+                Some(u) => kani::assert(!neg && vc::is_canonical(&u) && vc::eq_window(vc::digits(&u), &expect), "VERIF BigUint::from_f64 value"),
+                None => kani::assert(neg, "VERIF BigUint::from_f64 None for a positive finite float"),
+            }
+        }
+    };
+}
+// variant with a CONCRETE exponent field and sign, symbolic 52-bit fraction
+macro_rules! from_f64_field_shape {
+    ($name:ident, $field:expr, $w:expr, $fixed:ident) => {
+        #[kani::proof]
+        #[kani::unwind(24)]
+        #[kani::stub(alloc::vec::Vec::shrink_to_fit, vc::noop_shrink)]
+        #[kani::stub(crate::biguint::shift::biguint_shl, crate::biguint::shift::verif_c07_biguint_shift::$fixed)]
+        fn $name() {
+            let frac: u64 = kani::any();
+            let bits: u64 = (($field as u64) << 52) | (frac & ((1u64 << 52) - 1));
+            let n = f64::from_bits(bits);
+            let mant = (bits & ((1u64 << 52) - 1)) | (1u64 << 52);
+            let e: u64 = $field - 1075;
+            let (expect, lost) = vc::ref_shl::<$w>(&[mant], (e / 64) as usize, (e % 64) as u32);
+            kani::assert(!lost, "VERIF window too small");
+            match BigUint::from_f64(n) {
+                Some(u) => kani::assert(vc::is_canonical(&u) && vc::eq_window(vc::digits(&u), &expect), "VERIF BigUint::from_f64 value"),
+                None => kani::assert(false, "VERIF BigUint::from_f64 None for a positive finite float"),
+            }
+        }
+    };
+}
+from_f64_field_shape!(c08_t_from_f64_field_1075, 1075, 2, shl_fixedb_0);
+from_f64_shape!(c08_t_from_f64_w0, 0, 2, shl_fixedb_0);
+
+// small / special floats: |n| < 2^52 (fraction truncated toward zero), zeros, subnormals, NaN, infinities
+#[kani::proof]
+#[kani::unwind(24)]
+#[kani::stub(alloc::vec::Vec::shrink_to_fit, vc::noop_shrink)]
+#[kani::stub(crate::biguint::shift::biguint_shr, crate::biguint::shift::verif_c07_biguint_shift::shr_fixed_0)]
+fn c08_t_from_f64_small() {
+    let bits: u64 = kani::any();
+    let field = (bits >> 52) & 0x7ff;
+    kani::assume(field < 1075 || field == 0x7ff);
+    let n = f64::from_bits(bits);
+    let neg = (bits >> 63) == 1;
+    let r = BigUint::from_f64(n);
+    if field == 0x7ff {
+        kani::assert(r.is_none(), "VERIF from_f64(NaN/inf) is not None");
+    } else if field < 1023 {
+        // |n| < 1 (incl. -0.0 and subnormals): truncates to zero for either sign
+        match r {
+            Some(u) => kani::assert(vc::digits(&u).is_empty(), "VERIF from_f64(|n| < 1) is not zero"),
+            None => kani::assert(false, "VERIF from_f64(|n| < 1) is None"),
+        }
+    } else {
+        let mant = (bits & ((1u64 << 52) - 1)) | (1u64 << 52);
+        let v = mant >> (1075 - field);
+        match r {
+            Some(u) => kani::assert(!neg && vc::is_canonical(&u) && vc::digits(&u).len() == 1 && vc::digits(&u)[0] == v, "VERIF from_f64 truncation toward zero"),
+            None => kani::assert(neg, "VERIF from_f64 None for a positive float"),
+        }
+    }
+}
+// f32 goes through f64 exactly (num-traits default): spot the delegation on all f32 bit patterns of one class
+#[kani::proof]
+#[kani::unwind(24)]
+#[kani::stub(alloc::vec::Vec::shrink_to_fit, vc::noop_shrink)]
+#[kani::stub(crate::biguint::shift::biguint_shr, crate::biguint::shift::verif_c07_biguint_shift::shr_fixed_0)]
+fn c08_t_from_f32_small() {
+    let bits: u32 = kani::any();
+    let field = (bits >> 23) & 0xff;
+    kani::assume(field < 150 || field == 0xff);
+    let n = f32::from_bits(bits);
+    let neg = (bits >> 31) == 1;
+    let r = BigUint::from_f32(n);
+    if field == 0xff {
+        kani::assert(r.is_none(), "VERIF from_f32(NaN/inf) is not None");
+    } else if field < 127 {
+        match r {
+            Some(u) => kani::assert(vc::digits(&u).is_empty(), "VERIF from_f32(|n| < 1) is not zero"),
+            None => kani::assert(false, "VERIF from_f32(|n| < 1) is None"),
+        }
+    } else {
+        let mant = (bits & ((1u32 << 23) - 1)) | (1u32 << 23);
+        let v = (mant >> (150 - field)) as u64;
+        match r {
+            Some(u) => kani::assert(!neg && vc::digits(&u).len() == 1 && vc::digits(&u)[0] == v, "VERIF from_f32 truncation toward zero"),
+            None => kani::assert(neg, "VERIF from_f32 None for a positive float"),
+        }
+    }
+}
 high_bits_shape!(c08_q_high_bits_0, 0);
 high_bits_shape!(c08_q_high_bits_1, 1);
 high_bits_shape!(c08_q_high_bits_2, 2);
